@@ -1,5 +1,6 @@
 import IxpeVerif.RealInst
 import IxpeVerif.Model.SelectKw
+import IxpeVerif.Gen.ImpR
 /-!
 # C10 — xpselect propagates time keywords as documented
 
@@ -87,6 +88,49 @@ def exampleIn : In ℝ :=
 
 example : timeSelected exampleIn = true ∧ (∀ a, exampleIn.tmin = some a → exampleIn.tstart ≤ a ∧ a ≤ exampleIn.tstop) := by
   simp [timeSelected, exampleIn]; norm_num
+
+/-! ### T-tie: `_time_header_keywords`, `time_selected`, `phase_selected` (evt/subselect.py) and `average_deadtime_per_event` (evt/event.py)
+regenerated from the source (`Gen/ImpR.lean`, translator/realimp.py) are the model -/
+
+/-- the model's output as the insertion-ordered dictionary the code builds -/
+def toDict (o : Out ℝ) : List (String × ℝ) :=
+  (match o.tstart, o.tstop with
+    | some a, some b => [("TSTART", a), ("TSTOP", b)]
+    | _, _ => []) ++ [("ONTIME", o.ontime), ("LIVETIME", o.livetime), ("DEADC", o.deadc)]
+
+def algName (ltscale : Bool) : String := if ltscale then "LTSCALE" else "LTSUM"
+
+theorem gen_time_selected_eq_model (k : In ℝ) : Gen.ImpR.time_selected k.tmin k.tmax = timeSelected k := rfl
+theorem gen_phase_selected_eq_model (k : In ℝ) : Gen.ImpR.phase_selected k.pmin k.pmax = phaseSelected k := rfl
+theorem gen_average_deadtime_eq_model (k : In ℝ) : Gen.ImpR.average_deadtime_per_event k.ontime k.livetime k.nTotal = avgDeadtime k := rfl
+
+/-- **the generated `_time_header_keywords` is the model**, for both livetime algorithms and every combination of present / missing bounds:
+the dictionary built by the source (TSTART, TSTOP, ONTIME for a time selection; ONTIME for a phase selection; then LIVETIME, DEADC) holds the
+model's values under the same keys, and the code fails (a name never bound) exactly where the model returns `none` -/
+theorem gen_time_header_keywords_eq_model (k : In ℝ) :
+    Gen.ImpR.time_header_keywords k.tmin k.tmax k.pmin k.pmax (algName k.ltscale) k.tstart k.tstop k.ontime
+      (Gen.ImpR.average_deadtime_per_event k.ontime k.livetime k.nTotal) k.nSel k.ltSumSel = (keywords k).map toDict := by
+  obtain ⟨tstart, tstop, ontime, livetime, nTotal, nSel, ltSumSel, tmin, tmax, pmin, pmax, ltscale⟩ := k
+  have hne : ("LTSCALE" == "LTSUM") = false := by decide
+  cases tmin <;> cases tmax <;> cases pmin <;> cases pmax <;> cases ltscale <;>
+    simp [Gen.ImpR.time_header_keywords, Gen.ImpR.time_selected, Gen.ImpR.phase_selected, Gen.ImpR.average_deadtime_per_event, keywords,
+      timeSelected, phaseSelected, avgDeadtime, toDict, algName, Np.dset, hne]
+
+/-- the documented keywords, on the current source (time selection): the dictionary written to the three headers -/
+theorem gen_time_kw_spec (k : In ℝ) (ht : timeSelected k = true)
+    (hmin : ∀ a, k.tmin = some a → k.tstart ≤ a ∧ a ≤ k.tstop) (hmax : ∀ b, k.tmax = some b → k.tstart ≤ b ∧ b ≤ k.tstop) :
+    ∃ o, Gen.ImpR.time_header_keywords k.tmin k.tmax k.pmin k.pmax (algName k.ltscale) k.tstart k.tstop k.ontime
+        (Gen.ImpR.average_deadtime_per_event k.ontime k.livetime k.nTotal) k.nSel k.ltSumSel = some (toDict o) ∧
+      o.tstart = some (match k.tmin with | some a => max k.tstart a | none => k.tstart) ∧
+      o.tstop = some (match k.tmax with | some b => min k.tstop b | none => k.tstop) ∧
+      o.ontime = (match k.tmax with | some b => min k.tstop b | none => k.tstop)
+               - (match k.tmin with | some a => max k.tstart a | none => k.tstart) ∧
+      o.deadc = o.livetime / o.ontime := by
+  obtain ⟨o, ho, h1, h2, h3⟩ := time_kw_spec k ht hmin hmax
+  refine ⟨o, by rw [gen_time_header_keywords_eq_model, ho]; rfl, h1, h2, h3, ?_⟩
+  cases hb : k.ltscale
+  · exact (ltsum_spec k o ho hb).2
+  · exact (ltscale_spec k o ho hb).2
 
 end SelKw
 end
